@@ -177,6 +177,7 @@ def runCase (c : Case) : List String := Id.run do
     for i in List.range m.m do
       let b := cb.getD i (.fin 0, .fin 0)
       out := out.push (s!"{id} row {i} {showBnd b.1} {showBnd b.2} y0 {showRat (y0.getD i 0)} lin" ++ showEntries (feedLinearConExpr m i))
+    out := out.push (s!"{id} colsizes" ++ String.join ((feedColumnSizes m).map (fun v => s!" {v}")))
     for s in feedSuffixes m do
       if !s.entries.isEmpty then
         out := out.push (s!"{id} suf {s.name} {s.kind % 8}" ++ showDenseNZ (dense (sufSize m s.kind) s.entries))
